@@ -33,7 +33,7 @@ from ..types import SimpleStructureHook
 from ._consts import AttributeOverride, already_generating, neutral
 from ._generics import generate_mapping
 from ._lc import generate_unique_filename
-from ._shared import find_structure_handler
+from ._shared import find_structure_handler, late_unstructure_handler
 
 if TYPE_CHECKING:
     from ..converters import BaseConverter
@@ -146,8 +146,9 @@ def make_dict_unstructure_fn_from_attrs(
                     try:
                         handler = converter.get_unstructure_hook(t, cache_result=False)
                     except RecursionError:
-                        # There's a circular reference somewhere down the line
-                        handler = converter.unstructure
+                        # There's a circular reference somewhere down the line:
+                        # bind late, still by the declared type.
+                        handler = late_unstructure_handler(t, converter)
             else:
                 handler = converter.unstructure
 
